@@ -3,6 +3,7 @@
 //! Provides Redis-compatible set operations including add, remove, membership testing,
 //! and set operations like union, intersection, and difference.
 
+use crate::storage::commands::RedisInt;
 use crate::error::{FerrousError, Result, StorageError};
 use crate::protocol::RespFrame;
 use crate::storage::StorageEngine;
@@ -269,7 +270,7 @@ pub fn handle_srandmember(storage: &Arc<StorageEngine>, db: usize, parts: &[Resp
     let count = if parts.len() == 3 {
         match &parts[2] {
             RespFrame::BulkString(Some(bytes)) => {
-                match String::from_utf8_lossy(bytes).parse::<i64>() {
+                match String::from_utf8_lossy(bytes).parse_redis::<i64>() {
                     // A negative count asks for exactly that many elements: refuse what no
                     // reply could hold instead of sizing an allocation by it
                     Ok(n) if n < -(i32::MAX as i64) => return Ok(RespFrame::error("ERR value is out of range")),
@@ -333,7 +334,7 @@ pub fn handle_spop(storage: &Arc<StorageEngine>, db: usize, parts: &[RespFrame])
         match &parts[2] {
             RespFrame::BulkString(Some(bytes)) => {
                 // A count is a non-negative 64-bit signed integer, as every other integer argument
-                match String::from_utf8_lossy(bytes).parse::<i64>() {
+                match String::from_utf8_lossy(bytes).parse_redis::<i64>() {
                     Ok(n) if n >= 0 => n as usize,
                     _ => return Ok(RespFrame::error("ERR value is not an integer or out of range")),
                 }
